@@ -12,6 +12,8 @@ from .engine import PyRaise, Unsupported
 
 EXTERNAL = {}
 TRUSTED_NOTES = {}
+REPO_STUBS = {}  # "module:function" -> engine model of a repository function that only wraps a native library
+REPO_STUB_NOTES = {}
 
 
 def ext(name, note=None):
@@ -175,10 +177,16 @@ def _real_arg(m, a, node):
 
 
 def elementwise1(fn):
-    """lift a scalar library function to arrays of concrete shape (first argument)"""
+    """lift a scalar library function to arrays of concrete shape (first argument); NaN in, NaN out"""
 
     def wrapped(m, args, kw, node):
         try:
+            if args and isinstance(args[0], NanReal) and getattr(fn, "__name__", "") not in ("np_isnan", "np_maximum", "np_minimum"):
+                a = args[0]
+                r = fn(m, [a.val] + list(args[1:]), kw, node)
+                if isinstance(r, NanReal):
+                    return m.mknan(m.disj([a.isnan, r.isnan]), r.val)
+                return m.mknan(a.isnan, r)
             return fn(m, args, kw, node)
         except _ArrayArg as e:
             from . import npmodel
@@ -186,7 +194,7 @@ def elementwise1(fn):
             a = e.arr
             if not any(x is a for x in args[:1]) and m.force(args[0], node) is not a:
                 raise Unsupported("array in a non-leading argument", node)
-            out = [fn(m, [x] + list(args[1:]), kw, node) for x in a.data]
+            out = [wrapped(m, [x] + list(args[1:]), kw, node) for x in a.data]
             return npmodel.SArr(a.shape, out, "real")
 
     return wrapped
@@ -221,6 +229,11 @@ def np_exp(m, args, kw, node):
     a = _real_arg(m, args[0], node)
     if isinstance(a, (int, Fraction)) and a == 0:
         return Fraction(1)
+    if getattr(m, "calculus", False):
+        # analytic mode: only the instance fact exp(a) > 0 (the quantified axioms make every feasibility query slow)
+        r = m.mk(ufun("np_exp", z3.RealSort(), z3.RealSort())(m.z(a, "real")), "real")
+        m.assume(r.t > 0)
+        return r
     _exp_axioms(m)
     return m.mk(ufun("np_exp", z3.RealSort(), z3.RealSort())(m.z(a, "real")), "real")
 
@@ -230,7 +243,8 @@ def np_log(m, args, kw, node):
     a = _real_arg(m, args[0], node)
     if isinstance(a, (int, Fraction)) and a == 1:
         return Fraction(0)
-    _exp_axioms(m)
+    if not getattr(m, "calculus", False):
+        _exp_axioms(m)
     return m.mk(ufun("np_log", z3.RealSort(), z3.RealSort())(m.z(a, "real")), "real")
 
 
@@ -248,6 +262,10 @@ def np_power(m, args, kw, node):
         return m.binop(ast.Pow(), a, b, node)
     R = z3.RealSort()
     pw = ufun("np_pow", R, R, R)
+    if getattr(m, "calculus", False):
+        r = m.mk(pw(m.z(a, "real"), m.z(b, "real")), "real")
+        m.assume(z3.Implies(m.z(a, "real") > 0, r.t > 0))
+        return r
     if not getattr(m, "_pow_ax", False):
         m._pow_ax = True
         x, y, w = z3.Reals("pw_x pw_y pw_w")
@@ -268,6 +286,12 @@ def np_power(m, args, kw, node):
 @ext("numpy.sqrt", "A-TRANSC: sqrt(x)^2 == x, sqrt(x) >= 0 for x >= 0")
 def np_sqrt(m, args, kw, node):
     a = _real_arg(m, args[0], node)
+    if getattr(m, "calculus", False):
+        # analytic mode: sqrt is a function symbol (so that terms can be differentiated and normalised exactly)
+        az = m.z(a, "real")
+        r = m.mk(ufun("np_sqrt", z3.RealSort(), z3.RealSort())(az), "real")
+        m.assume(z3.And(r.t >= 0, r.t * r.t == az))
+        return r
     r = m.fresh_scalar("real", "sqrt")
     m.assume(z3.And(r.t >= 0, r.t * r.t == m.z(a, "real")))
     return r
@@ -358,6 +382,10 @@ def np_clip(m, args, kw, node):
 @ext("numpy.isnan", "A-REAL: reals are never NaN unless declared NanRealT")
 def np_isnan(m, args, kw, node):
     a = m.force(args[0], node)
+    if type(a).__name__ == "SArr":
+        from . import npmodel
+
+        return npmodel.SArr(a.shape, [np_isnan(m, [x], kw, node) for x in a.data], "bool")
     if isinstance(a, NanReal):
         return a.isnan if isinstance(a.isnan, bool) else m.mk(a.isnan, "bool")
     if a is None:
@@ -377,6 +405,7 @@ def np_isfinite(m, args, kw, node):
 def np_abs(m, args, kw, node):
     from .builtins import b_abs
 
+    _real_arg(m, args[0], node)  # arrays: lifted element-wise by the wrapper
     return b_abs(m, args, kw, node)
 
 
@@ -506,12 +535,21 @@ def inf_value(m):
     return m._inf
 
 
+def _pi(m):
+    if getattr(m, "calculus", False):
+        c = z3.Real("const_pi")
+        m.assume(z3.And(c > Fraction("3.14159265358979"), c < Fraction("3.14159265358980")))
+        return Sym(c, "real")
+    return Fraction("3.141592653589793")
+
+
 CONSTANTS = {
     "numpy.inf": inf_value,
     "math.inf": inf_value,
     "numpy.nan": lambda m: NanReal(True, Fraction(0)),
     "math.nan": lambda m: NanReal(True, Fraction(0)),
-    "numpy.pi": lambda m: Fraction("3.141592653589793"),
+    "numpy.pi": lambda m: _pi(m),
+    "autograd.numpy.pi": lambda m: _pi(m),
 }
 REMOVED_IN_NUMPY2 = {"numpy.NAN", "numpy.NaN", "numpy.Inf", "numpy.infty", "numpy.float_", "numpy.PINF", "numpy.NINF"}
 
@@ -696,7 +734,17 @@ for _k in ("numpy.exp", "numpy.log", "numpy.round", "numpy.rint", "numpy.around"
 
 @ext("numpy.divide", "true division")
 def np_divide(m, args, kw, node):
-    return m.binop(ast.Div(), m.force(args[0], node), m.force(args[1], node), node)
+    a, b = m.force(args[0], node), m.force(args[1], node)
+    if getattr(m, "total_ops", False) and not m.in_spec and isinstance(b, (Sym, int, Fraction)) and not isinstance(b, bool):
+        # numpy semantics made visible: x / 0 is not an exception but inf / nan; the result carries a "not finite" flag
+        bz = m.z(b, "real")
+        d = m.fresh_scalar("real", "quot")
+        m.assume(z3.Implies(bz != 0, d.t * bz == m.z(a.val if isinstance(a, NanReal) else a, "real")))
+        flag = bz == 0
+        if isinstance(a, NanReal):
+            flag = m.disj([a.isnan, flag])
+        return m.mknan(flag, d)
+    return m.binop(ast.Div(), a, b, node)
 
 
 @ext("numpy.log1p", "A-TRANSC: log1p(x) == log(1 + x)")
@@ -740,3 +788,46 @@ def sys_getsizeof(m, args, kw, node):
 @ext("sys.stdout.flush", "no effect on program state")
 def sys_flush(m, args, kw, node):
     return None
+
+
+def _uf1(name, note, extra=None):
+    def fn(m, args, kw, node):
+        a = _real_arg(m, args[0], node)
+        az = m.z(a, "real")
+        r = m.mk(ufun(name, z3.RealSort(), z3.RealSort())(az), "real")
+        if extra is not None:
+            m.assume(extra(r.t, az))
+        return r
+
+    fn.__name__ = name
+    return fn
+
+
+_ANALYTIC_NOTE = "analytic function symbol: meaning given by the translation table of pyvc/analytic.py (sympy)"
+for _dotted, _nm, _extra in (
+    ("scipy.special.erfc", "sp_erfc", lambda r, a: z3.And(r > 0, r < 2)),
+    ("scipy.stats.norm.cdf", "norm_cdf", lambda r, a: z3.And(r > 0, r < 1)),
+    ("scipy.stats.norm.pdf", "norm_pdf", lambda r, a: r > 0),
+    ("numpy.expm1", "np_expm1", lambda r, a: r > -1),
+    ("numpy.log1p", "np_log1p", None),
+):
+    EXTERNAL[_dotted] = elementwise1(_uf1(_nm, _ANALYTIC_NOTE, _extra))
+    TRUSTED_NOTES[_dotted] = _ANALYTIC_NOTE
+
+@ext("numpy.multiply", "product")
+def np_multiply(m, args, kw, node):
+    return m.binop(ast.Mult(), m.force(args[0], node), m.force(args[1], node), node)
+
+
+@ext("numpy.square", "square")
+def np_square(m, args, kw, node):
+    a = m.force(args[0], node)
+    return m.binop(ast.Mult(), a, a, node)
+
+
+for _k in ("numpy.power", "numpy.maximum", "numpy.minimum", "numpy.isnan", "numpy.divide", "numpy.multiply", "numpy.square"):
+    if _k in EXTERNAL:
+        EXTERNAL[_k] = elementwise1(EXTERNAL[_k])
+for _k in list(EXTERNAL):
+    if _k.startswith("numpy."):
+        EXTERNAL["autograd." + _k] = EXTERNAL[_k]
